@@ -112,6 +112,14 @@ def run_events(tid, shape, events, obj, joy, cap):
                 out = {"r": bool(obj.filter(rec))}
             elif k == "reset":
                 obj.reset()
+            elif k == "enable":
+                obj.enable()
+            elif k == "disable":
+                obj.disable()
+            elif k == "gettime":
+                out = {"r": int(round(obj.getTime() * 1e6))}
+            elif k == "gettimeout":
+                out = {"r": int(round(obj.getTimeout() * 1e6))}
             elif k == "settimeout":
                 obj.setTimeout(ev["t"] / 1e6)
             elif k == "expired":
@@ -166,7 +174,9 @@ def random_events(rng, shape):
             evs.append({"e": "rec", "lvl": rng.choice([0, 5, 10, 20, 20, 30, 40, 50])})
         else:
             r = rng.random()
-            evs.append({"e": "reset"} if r < 0.2 else {"e": "expired"} if r < 0.45 else {"e": "epoch"} if r < 0.65
+            evs.append({"e": "reset"} if r < 0.17 else {"e": "enable"} if r < 0.2 else {"e": "expired"} if r < 0.42
+                       else {"e": "disable"} if r < 0.45 else {"e": "epoch"} if r < 0.6 else {"e": "gettime"} if r < 0.64
+                       else {"e": "gettimeout"} if r < 0.66
                        else {"e": "settimeout", "t": rng.choice([5000, 20000, 31250])} if r < 0.7 else {"e": "print"})
     return evs
 
